@@ -298,27 +298,22 @@ func (f *flusher) flushData(b *blob) error {
 		return fmt.Errorf("mem store open: %w", err)
 	}
 	defer closers.Close(memF)
+	// The abort check and the creation of the disk entry happen under the flusher lock: a Delete (abort, then
+	// disk delete) either finds and removes the entry, or the entry is never created. Otherwise a deleted key
+	// would resurface on disk (and block re-creation) until this worker cleaned it up.
+	f.mu.Lock()
+	if _, ok := f.blobs[b.key]; !ok {
+		// abort was called, there is nothing to flush.
+		f.mu.Unlock()
+		return nil
+	}
 	diskF, err := f.disk.Create(key, b.dataSize)
+	f.mu.Unlock()
 	if err != nil {
 		return fmt.Errorf("disk store create: %w", err)
 	}
 	defer closers.Close(diskF)
 	verifPoint("created", key)
-	f.mu.Lock()
-	_, ok := f.blobs[b.key]
-	if !ok {
-		// abort was called before we created the file, we need to cleanup.
-		err := f.disk.Delete(key)
-		if err != nil && !errors.Is(err, os.ErrNotExist) {
-			f.log.With(
-				"key", key,
-				"error", err).
-				Error("Could not clean disk entry after flushing failed, blob is now leaked in disk store")
-		}
-		f.mu.Unlock()
-		return nil
-	}
-	f.mu.Unlock()
 	_, err = ioCopy(diskF, memF)
 	if errors.Is(err, memory.ErrEvicted) {
 		return nil
